@@ -7,6 +7,7 @@ package absint
 
 import (
 	"fmt"
+	"go/token"
 	"go/types"
 	"sort"
 	"strings"
@@ -123,7 +124,8 @@ type Piece struct {
 type Hole struct {
 	A    *Atom
 	Tr   []string // transforms applied, in order: quoted, upper, lower, [0:1], [1:], no-newline, fmt:%d ...
-	Site string   // emit site that introduced it into text (function:line, filled by the emitter hooks)
+	Site    string // where it was formatted into text: "<function> :: <format> arg<i>" (position-free)
+	SitePos string // file:line of that site
 }
 
 // Str is an abstract string: a list of pieces. A concrete string has only Lit pieces.
@@ -385,6 +387,8 @@ func (m *Machine) Equal(x, y Value) (Tri, string) {
 			return triOf(a == b), ""
 		case Num:
 			return m.numCmpConst(b, float64(a), "==")
+		case SymInt:
+			return triOf(m.symIntCmp(token.EQL, a, b, true).(bool)), ""
 		}
 	case float64:
 		switch b := y.(type) {
@@ -401,6 +405,10 @@ func (m *Machine) Equal(x, y Value) (Tri, string) {
 			return m.numCmpConst(a, b, "==")
 		case Num:
 			return m.numCmpNum(a, b, "==")
+		}
+	case SymInt:
+		if b, ok := y.(int64); ok {
+			return triOf(m.symIntCmp(token.EQL, b, a, false).(bool)), ""
 		}
 	case Str:
 		if b, ok := y.(Str); ok {
